@@ -73,6 +73,7 @@ func runC03(c *Ctx) {
 	ruleTransitionSwap(c, "R3.5")
 	ruleValidateBeforeStore(c, "R3.6") // the gate in front of the share swap refuses nothing the DKG layer agreed on
 	ruleVaultSwap(c, "R3.5")           // the polynomial partials are checked against is swapped together with the group and share
+	ruleCallbackIdsDistinct(c, "R3.7")
 }
 
 // ruleGate checks the conditions dominating the injection of a remote partial; withClockOnly restricts to R4.5.
@@ -475,6 +476,7 @@ func runC04(c *Ctx) {
 	ruleSyncTargets(c, "R4.6")
 	ruleClockSource(c, "R4.7")
 	ruleStopCancelsFirst(c, "R4.8")
+	ruleBoundedSyncStartsBelowBound(c, "R4.9")
 }
 
 func ruleSingleSigner(c *Ctx, rule string, sign *ssa.Function) {
@@ -1135,4 +1137,231 @@ func ruleStopCancelsFirst(c *Ctx, rule string) {
 		})
 		c.Ok(rule, "the signing function sends no partial once its context is cancelled", c.P.Pos(sign.Pos()), okc && n > 0, fmt.Sprintf("%d send goroutine(s), each behind a ctx.Done()/ctx.Err() check", n))
 	}
+}
+
+// R3.7: the callbacks registered on a chain's callback store are keyed by strings, and registering under a key that
+// is in use replaces the callback that was there. The switch to the group of the next epoch is one of them (fixed key),
+// so no key may be chosen by a remote party alone: a key is a constant, or a concatenation that has a part the remote
+// party does not choose (a constant, or an encoding of bytes made locally).
+func ruleCallbackIdsDistinct(c *Ctx, rule string) {
+	c.ranRules[rule] = true
+	n := 0
+	var classify func(v ssa.Value, d int) (bool, string)
+	classify = func(v ssa.Value, d int) (bool, string) {
+		v = canonValue(v)
+		if d > 6 {
+			return false, "too deep"
+		}
+		switch x := v.(type) {
+		case *ssa.Const:
+			if x.Value != nil && len(x.Value.ExactString()) > 2 {
+				return true, "constant " + x.Value.ExactString()
+			}
+			return false, "empty constant"
+		case *ssa.BinOp:
+			if x.Op == token.ADD {
+				if ok, w := classify(x.X, d+1); ok {
+					return true, w
+				}
+				return classify(x.Y, d+1)
+			}
+		case *ssa.Phi:
+			for _, e := range x.Edges {
+				if ok, w := classify(e, d+1); !ok {
+					return false, w
+				}
+			}
+			return true, "every definition has a local part"
+		case *ssa.Call:
+			name := calleeName(x)
+			if strings.HasSuffix(name, "encoding/hex.EncodeToString") {
+				// bytes made locally: not a parameter, not read from the request
+				bad := hasOrigin(Origins(x.Call.Args[0]), func(o Origin) bool { return o.Kind == "param" || o.Kind == "recv" })
+				return !bad, "hex of local bytes"
+			}
+			if strings.HasSuffix(name, "fmt.Sprintf") {
+				if k, ok := x.Call.Args[0].(*ssa.Const); ok && k.Value != nil {
+					f := strings.Trim(k.Value.ExactString(), "\"")
+					lit := strings.NewReplacer("%s", "", "%d", "", "%v", "", "%x", "", "%q", "").Replace(f)
+					if len(lit) > 0 {
+						return true, "format with literal text"
+					}
+				}
+			}
+			return false, "the key is the result of " + strings.ReplaceAll(name, modPath+"/", "")
+		case *ssa.Parameter:
+			fn := x.Parent()
+			idx := -1
+			for i, p := range fn.Params {
+				if p == x {
+					idx = i
+				}
+			}
+			for _, e := range c.P.Callers(fn) {
+				if e.Site == nil || isControlFn(e.Caller.Func) {
+					continue
+				}
+				args := callArgs(e.Site)
+				if idx < len(args) {
+					if ok, w := classify(args[idx], d+1); !ok {
+						return false, w + " (passed by " + fnShort(e.Caller.Func) + ")"
+					}
+				}
+			}
+			return true, "every caller passes a key with a local part"
+		}
+		return false, "the key is " + v.Name() + ", not a constant nor a concatenation with a local part"
+	}
+	for _, root := range c.P.SubjectFns() {
+		if isControlFn(root) || root.Parent() != nil {
+			continue
+		}
+		for _, fn := range withClosures(root) {
+			forEachInstr(fn, func(_ *ssa.BasicBlock, _ int, in ssa.Instruction) {
+				ci, ok := in.(ssa.CallInstruction)
+				if !ok || methodName(ci) != "AddCallback" {
+					return
+				}
+				args := callArgs(ci)
+				if len(args) < 3 || !strings.Contains(typeShort(args[0].Type()), "internal/chain/beacon.") {
+					return
+				}
+				// a store made in this very function is not shared with the epoch switch
+				if hasOrigin(Origins(args[0]), func(o Origin) bool {
+					return o.Kind == "call" && strings.HasSuffix(o.Name, "NewCallbackStore") && storeStaysPrivate(o.Val, 0)
+				}) {
+					return
+				}
+				id := args[1]
+				if len(args) == 4 { // Handler.AddCallback(ctx, id, fn)
+					id = args[2]
+				}
+				n++
+				ok2, why := classify(id, 0)
+				c.Ok(rule, fnShort(fn)+" registers a callback under a key no remote party chooses alone", shortPos(c.P, in), ok2, why)
+			})
+		}
+	}
+	c.Floor(rule, "callback registrations on a shared store", n, 5)
+}
+
+// storeStaysPrivate: the callback store made by this call is only used through its own methods here, or handed on as an
+// interface through which no callback can be registered.
+func storeStaysPrivate(v ssa.Value, d int) bool {
+	if v == nil || d > 4 || v.Referrers() == nil {
+		return false
+	}
+	for _, r := range *v.Referrers() {
+		switch x := r.(type) {
+		case *ssa.Extract:
+			if !storeStaysPrivate(x, d+1) {
+				return false
+			}
+		case ssa.CallInstruction:
+			args := callArgs(x)
+			for i, a := range args {
+				if a == v && i != 0 {
+					return false
+				}
+			}
+		case *ssa.MakeInterface:
+			if it, ok := x.Type().Underlying().(*types.Interface); ok {
+				for i := 0; i < it.NumMethods(); i++ {
+					if it.Method(i).Name() == "AddCallback" {
+						return false
+					}
+				}
+			}
+			// the interface value may go anywhere
+		case *ssa.ChangeInterface:
+			canRegister := true
+			if it, ok := x.Type().Underlying().(*types.Interface); ok {
+				canRegister = false
+				for i := 0; i < it.NumMethods(); i++ {
+					if it.Method(i).Name() == "AddCallback" {
+						canRegister = true
+					}
+				}
+			}
+			if canRegister && !storeStaysPrivate(x, d+1) {
+				return false
+			}
+		case *ssa.Store:
+			a, ok := x.Addr.(*ssa.Alloc)
+			if !ok || x.Val != v {
+				return false
+			}
+			for _, ar := range *a.Referrers() {
+				if u, ok := ar.(*ssa.UnOp); ok && !storeStaysPrivate(u, d+1) {
+					return false
+				} else if _, isSt := ar.(*ssa.Store); !ok && !isSt {
+					if _, isDbg := ar.(*ssa.DebugRef); !isDbg {
+						return false
+					}
+				}
+			}
+		case *ssa.DebugRef:
+		case *ssa.BinOp, *ssa.If:
+		default:
+			return false
+		}
+	}
+	return true
+}
+
+// R4.9: a sync bounded by upTo is started only while the stored head is below upTo. The fetch loop stops when the head
+// EQUALS the bound, so a sync started at head == upTo never stops: it follows the peers' chain past the round the
+// node's own clock has reached, and the next tick signs on top of a head the clock has not reached yet.
+func ruleBoundedSyncStartsBelowBound(c *Ctx, rule string) {
+	c.ranRules[rule] = true
+	run := c.P.Fn("internal/chain/beacon.(*SyncManager).Run")
+	if !c.Anchor(rule, "internal/chain/beacon.(*SyncManager).Run", run != nil) {
+		return
+	}
+	n := 0
+	forEachInstr(run, func(_ *ssa.BasicBlock, _ int, in ssa.Instruction) {
+		ci, ok := in.(ssa.CallInstruction)
+		if !ok {
+			return
+		}
+		starts := strings.HasSuffix(calleeName(ci), "SyncManager).Sync")
+		if f := calledFunc(ci); !starts && f != nil && f.Parent() == run {
+			starts = len(callsIn(f, func(x ssa.CallInstruction) bool { return strings.HasSuffix(calleeName(x), "SyncManager).Sync") })) > 0
+		}
+		if !starts {
+			return
+		}
+		n++
+		isHead := func(v ssa.Value) bool {
+			return hasOrigin(Origins(v), func(o Origin) bool { return o.Kind == "field" && strings.HasSuffix(o.Name, "common.Beacon.Round") })
+		}
+		isBound := func(v ssa.Value) bool {
+			return hasOrigin(Origins(v), func(o Origin) bool { return o.Kind == "field" && strings.HasSuffix(o.Name, "RequestInfo.upTo") })
+		}
+		ok2 := mustCross(in, func(e edge) bool {
+			for _, cj := range edgeConjuncts(e) {
+				lo, hi, strict, isOrd := ordForm(cj.cond, cj.truth)
+				if isOrd {
+					if strict && isHead(lo) && isBound(hi) {
+						return true // head < upTo
+					}
+					if k, isK := constInt(hi); isK && isBound(lo) && (k == 0 && !strict || k == 1 && strict) {
+						return true // upTo <= 0: unbounded request
+					}
+				}
+				if b, isB := cj.cond.(*ssa.BinOp); isB && b.Op == token.EQL && cj.truth {
+					if k, isK := constInt(b.Y); isK && k == 0 && isBound(b.X) {
+						return true
+					}
+					if k, isK := constInt(b.X); isK && k == 0 && isBound(b.Y) {
+						return true
+					}
+				}
+			}
+			return false
+		})
+		c.Ok(rule, "SyncManager.Run starts a sync only for an unbounded request or while the head is below the bound", shortPos(c.P, in), ok2,
+			"every path to the start of the sync crosses an edge establishing head.Round < request.upTo, or request.upTo == 0")
+	})
+	c.Floor(rule, "places where Run starts a sync", n, 1)
 }
